@@ -131,10 +131,29 @@ let ops_c20 = [
     if implemented (n_of_int (int_of_string f.(1))) (be_val b) && opcode_canonical b then "IMPL" else "UNIMPL");
 ]
 
+(* ---------------- C08 ---------------- *)
+let rec nat_of_int n = if n = 0 then O else S (nat_of_int (n - 1))
+let ops_c08 = [
+  "ser", (fun f -> match encode (parse_val f.(1)) with Some b -> "OK " ^ hex_of_bytes b | None -> "OOF");
+  "cser", (fun f -> match spec_encode (parse_val f.(1)) with Some b -> "OK " ^ hex_of_bytes b | None -> "ERR");
+  "deser", (fun f -> let b = bytes_of_hex f.(1) in
+     match decode b with
+     | Some (v, rest) -> Printf.sprintf "OK %s %d" (print_val v) (List.length b - List.length rest)
+     | None -> "ERR");
+  "cdeser", (fun f -> let b = bytes_of_hex f.(1) in
+     match spec_decode (nat_of_int (List.length b + 1)) b with
+     | Some (v, rest) -> Printf.sprintf "OK %s 0" (print_val v)
+     | None -> "ERR");
+  "int_from_bytes", (fun f -> match int_from_bytes (bytes_of_hex f.(1)) with Some n -> "OK " ^ str_of_n n | None -> "ERR");
+  "bigint_from_bytes", (fun f -> let b = bytes_of_hex f.(2) in
+     if f.(1) = "1" then "OK " ^ str_of_z (bigint_from_bytes_signed b) else "OK " ^ str_of_n (bigint_from_bytes_unsigned b));
+  "bigint_to_bytes_clvm", (fun f -> "OK " ^ hex_of_bytes (bigint_to_bytes_clvm (z_of_str f.(1))));
+]
+
 (*OPS-INSERT*)
 
 let all_ops : (string, string array -> string) Hashtbl.t = Hashtbl.create 64
-let () = List.iter (fun l -> List.iter (fun (k, v) -> Hashtbl.replace all_ops k v) l) [ops_c20 (*OPS-LIST*)]
+let () = List.iter (fun l -> List.iter (fun (k, v) -> Hashtbl.replace all_ops k v) l) [ops_c20; ops_c08 (*OPS-LIST*)]
 
 let dispatch (f : string array) : string =
   match Hashtbl.find_opt all_ops f.(0) with
